@@ -296,6 +296,9 @@ func PrettifyErrorWithFormatter(zodErr *ZodError, formatter MessageFormatter) st
 	if zodErr == nil || len(zodErr.Issues) == 0 {
 		return "Validation failed"
 	}
+	if formatter == nil {
+		formatter = defaultFormatter
+	}
 
 	var builder strings.Builder
 	builder.Grow(len(zodErr.Issues) * 50)
@@ -306,7 +309,7 @@ func PrettifyErrorWithFormatter(zodErr *ZodError, formatter MessageFormatter) st
 		}
 
 		message := issue.Message
-		if message == "" && formatter != nil {
+		if message == "" {
 			message = formatter.FormatMessage(core.ZodRawIssue{
 				Code:       issue.Code,
 				Path:       issue.Path,
@@ -331,6 +334,10 @@ func PrettifyErrorWithFormatter(zodErr *ZodError, formatter MessageFormatter) st
 // This eliminates the repeated closure pattern across FormatError, TreeifyError,
 // FlattenError, and FlattenErrorWithFormatter.
 func defaultIssueMapper(formatter MessageFormatter) func(ZodIssue) string {
+	if formatter == nil {
+		// a ZodError built as a struct literal has no formatter
+		formatter = defaultFormatter
+	}
 	return func(issue ZodIssue) string {
 		if issue.Message != "" {
 			return issue.Message
